@@ -160,6 +160,6 @@ def selftest():
     good = replay(rec, None)
     bad = replay(dict(rec, beam_total=[100, 1]), None)
     from . import c05_composition
-    ok = not good and bool(bad) and c05_composition.selftest()
+    ok = not any("sig" in x for x in good) and any("sig" in x for x in bad) and c05_composition.selftest()
     print("C05 selftest:", "ok" if ok else "FAILED", good[:1], bad[:1])
     return 0 if ok else 2
